@@ -65,6 +65,11 @@ def gen_docs(rng, n, stats):
     for s in seeds:
         for t in xmlgen.truncations(s):
             add("truncation", t)
+    if n >= 100000:
+        # the namespace-count limit (roxmltree: 65535 distinct declarations; the model: 65535 declarations)
+        for k in (65535, 65536):
+            add("ns-limit", ("<r>" + "".join('<a xmlns:p="u"/>' for _ in range(k)) + "</r>").encode())
+            add("ns-limit", ("<r>" + "".join('<a xmlns:p%d="u"/>' % i for i in range(k)) + "</r>").encode())
     while len(docs) < n:
         c = rng.below(100)
         if c < 22:
